@@ -64,6 +64,8 @@ class Master:
                     self.m.read()
         except sim.WatchdogExpired:
             self.hung = True
+        except Exception:  # noqa  (a verdict about the code, not a harness failure)
+            self.hung = self.raised = True
         self.s.deadline = None
         out = []
         for p in self.air.log:
@@ -80,7 +82,7 @@ class Master:
             return dict(op="hang", id=nid, via=via, before=b, after=b, replies=[], noise=-1)
         rep = self._inject(via, 195, nid, noise=noise)
         if getattr(self, "hung", False):
-            return dict(op="hang", id=nid, via=via, before=b, after=b, replies=[], noise=-1)
+            return dict(op="raise" if getattr(self, "raised", False) else "hang", id=nid, via=via, before=b, after=b, replies=[], noise=-1)
         return dict(op="req", id=nid, via=via, before=b, after=self.table(), replies=rep, noise=-1 if noise is None else noise)
 
     def release(self, addr):
